@@ -19,6 +19,10 @@ def showScalar : Scalar → String
   | .str s => s!"s{s}"
   | .strFreed => "s!freed"
   | .raw w => s!"p{w}"
+  | .tup items => "t[" ++ ",".intercalate (items.map toString) ++ "]"
+  | .tupFreed => "t!freed"
+  | .arr vals => "a[" ++ ",".intercalate (vals.map toString) ++ "]"
+  | .arrFreed _ => "a!freed"
 
 /-- at most 24 items are shown -/
 def capped (l : List String) : String :=
@@ -91,11 +95,25 @@ def parseText (w : String) : String := if w == "-" then "" else w
 
 def isText (w : String) : Bool := w == "-" || w.toList.all (fun c => c.isAlphanum)
 
+def allSome {α : Type} : List (Option α) → Option (List α)
+  | [] => some []
+  | some x :: r => (allSome r).map (x :: ·)
+  | none :: _ => none
+
+/-- `<tag>:` followed by comma-separated numbers (possibly none) -/
+def parseTagged {α : Type} (tag : String) (num : String → Option α) (w : String) : Option (List α) :=
+  if w.startsWith tag then
+    let rest := (w.drop tag.length).toString
+    if rest.isEmpty then some [] else allSome ((rest.splitOn ",").map num)
+  else none
+
 def parseScalar (t : Ty) (w : String) : Option Scalar :=
   match t with
   | .int => w.toInt?.map .int
   | .string => if isText w then some (.str (parseText w)) else none
   | .rt _ => w.toInt?.map .raw
+  | .tuple => (parseTagged "t:" String.toNat? w).map .tup      -- an embedded Tuple: the handles of its items
+  | .array => (parseTagged "a:" String.toInt? w).map .arr      -- an embedded Array of Int
   | _ => none
 
 def parseElemTy (w : String) : Option Ty :=
@@ -103,12 +121,9 @@ def parseElemTy (w : String) : Option Ty :=
   | .int => some .int
   | .string => some .string
   | .rt k => some (.rt k)
+  | .tuple => some .tuple
+  | .array => some .array
   | _ => none
-
-def allSome {α : Type} : List (Option α) → Option (List α)
-  | [] => some []
-  | some x :: r => (allSome r).map (x :: ·)
-  | none :: _ => none
 
 def pairs {α : Type} : List α → Option (List (α × α))
   | [] => some []
@@ -246,6 +261,24 @@ def kfLine (name : String) : String :=
     let e : Elem := { hdr := headerInit cfg .int cfg.bStack, cap := 8, val := .int 7 }
     let (e1, out) := freeElem cfg .del e
     s!"kf del-silent exc={showOutcome out} v={showScalar e1.val}"
+  else if name == "delraw-embedded-tuple" then
+    -- a = new_raw(Array, Tuple, tuple($I(1), $I(2))); del_raw(get(a, 0)): Tuple_Del frees `items`, dealloc's message shows them
+    let s := run cfg St.init [.make 0 .stack (.int 1), .make 1 .stack (.int 2)]
+    let (e1, out) := freeElem cfg .delRaw (seqElem cfg s .array .tuple (.tup [0, 1]))
+    s!"kf delraw-embedded-tuple exc={showOutcome out} v={if e1.val.dangling then "t!freed" else "tok"}"
+  else if name == "delraw-embedded-array" then
+    -- outer = new_raw(Array, Array, new_raw(Array, Int, 7, 8)); del_raw(get(outer, 0)): Array_Del frees the backing store
+    let (e1, out) := freeElem cfg .delRaw (seqElem cfg St.init .array .array (.arr [7, 8]))
+    s!"kf delraw-embedded-array exc={showOutcome out} v={if e1.val.dangling then "a!freed" else "aok"}"
+  else if name == "delraw-stack-box" then
+    -- p = new(Int, $I(5)); b = $(Box, p); del_raw(b): Box_Del deletes p and clears b, then dealloc refuses b
+    let s := run cfg St.init [.make 0 .new (.int 5), .make 1 .stack (.box (some 0))]
+    match s.get 1 with
+    | some o =>
+      let (s1, out) := freeObj cfg s .delRaw 1 o
+      let v := match s1.get 1 with | some o1 => showBody o1.body | none => "?"
+      s!"kf delraw-stack-box exc={showOutcome out} v={v} rel={s1.freed.length}"
+    | none => "bad-op"
   else "bad-op"
 
 def showIds (l : List Nat) : String := if l.isEmpty then "-" else ",".intercalate (l.map toString)
